@@ -113,6 +113,13 @@ class WidgetProtocol(Protocol):
     has = {"automove_cursor_on_scroll": False, "set_scrollpos": "uf", "get_scrollpos": "uf", "get_cursor_coords": "uf", "get_pref_col": "uf", "move_cursor_to_coords": "uf", "mouse_event": "uf", "keypress": True, "rows": True, "pack": True, "render": True, "selectable": True}
 
 
+    def isinstance(self, ip, st, obj, cls):
+        """An opaque child is a `urwid.Widget` (and nothing more specific is known about its class)."""
+        if cls is urwid.Widget or cls is object:
+            return True
+        raise Unsupported(f"isinstance(<opaque widget>, {getattr(cls, '__name__', cls)})")
+
+
 PROTOCOLS["Widget"] = WidgetProtocol()
 
 
